@@ -54,7 +54,7 @@ IfN(brs, els, he)   == [k |-> "if", brs |-> brs, els |-> els, haselse |-> he]   
 ForN(l, body)       == [k |-> "for", l |-> l, body |-> body]
 SwitchN(cases)      == [k |-> "switch", cases |-> cases]                           \* <<[key, body]>>
 CallN(c, af)        == [k |-> "call", comp |-> c, after |-> af]   \* after # "v" is only spellable with the legacy {! c() } syntax
-CallBN(c, body)     == [k |-> "callb", comp |-> c, body |-> body]
+CallBN(c, body, af) == [k |-> "callb", comp |-> c, body |-> body, after |-> af]
 SlotN(af)           == [k |-> "slot", after |-> af]
 GoCodeN             == [k |-> "gocode"]
 HCommentN(af)       == [k |-> "hcomment", after |-> af]
@@ -68,9 +68,9 @@ Trailer(nd) == nd.k \in {"text", "expr", "void", "el"}
 \* whitespace written after a node in the source
 WsAfter(nd) == IF nd.k = "text" /\ nd.tr = "" /\ "sp" \in DOMAIN nd /\ nd.sp THEN "h"   \* space kept inside the text value
                ELSE IF Trailer(nd) THEN nd.tr
-               ELSE IF nd.k \in {"slot", "hcomment", "mcomment", "raw", "call"} THEN nd.after
+               ELSE IF nd.k \in {"slot", "hcomment", "mcomment", "raw", "call", "callb"} THEN nd.after
                ELSE "v"                       \* control flow, calls, Go code, Go comments, doctype end their line
-LineStart(k) == k \in {"if", "for", "switch", "call", "callb", "gocode", "gocodeml", "gcomment", "doctype"}
+LineStart(k) == k \in {"if", "for", "switch", "call", "gocode", "gocodeml", "gcomment", "doctype"}
 
 \* whitespace in front of the next node to be added to a frame
 WsBefore(fr) == IF fr.items = <<>> THEN fr.lead ELSE WsAfter(fr.items[Len(fr.items)])
@@ -80,7 +80,7 @@ LastKind(fr) == IF fr.items = <<>> THEN "none" ELSE fr.items[Len(fr.items)].k
 CanAdd(fr, k) ==
     /\ LineStart(k) => WsBefore(fr) = "v"
     /\ (k = "text" /\ LastKind(fr) = "text") => WsBefore(fr) = "v"      \* two texts on one line are one text
-    /\ (k = "mcomment" /\ LastKind(fr) = "text") => WsBefore(fr) = "v"  \* a text runs up to the next `<`, `{` or line break
+    /\ (k \in {"mcomment", "callb"} /\ LastKind(fr) = "text") => WsBefore(fr) = "v"  \* a text runs up to the next `<`, `{` or line break
     /\ k = "doctype" => (fr.k = "root" /\ fr.items = <<>>)
 
 -----------------------------------------------------------------------------
@@ -161,11 +161,12 @@ NodeOf(fr, tr) ==
                             ELSE IfN(Append(fr.parts, [c |-> fr.h.c, body |-> fr.items]), <<>>, FALSE)
       [] fr.k = "for"    -> ForN(fr.h.l, fr.items)
       [] fr.k = "switch" -> SwitchN(Append(fr.parts, [key |-> fr.h.key, body |-> fr.items]))
-      [] fr.k = "callb"  -> CallBN(fr.h.comp, fr.items)
+      [] fr.k = "callb"  -> CallBN(fr.h.comp, fr.items, tr)
 
 \* close the innermost construct; an element also chooses the whitespace that follows its end tag
 Close(tr) == /\ ~done /\ Len(stack) > 1
-             /\ Top.k # "el" => (tr = "v" /\ WsBefore(Top) = "v")    \* `}` sits on its own line
+             /\ Top.k # "el" => WsBefore(Top) = "v"                    \* `}` sits on its own line
+             /\ Top.k \notin {"el", "callb"} => tr = "v"               \* control flow ends its line; a call block may be followed directly
              /\ Top.k \in {"callb"} => Top.items # <<>>          \* `@wrap() { }` with an empty block is a plain call
              /\ LET nd == NodeOf(Top, tr) IN
                 stack' = [SubSeq(stack, 1, Len(stack) - 1) EXCEPT ![Len(stack) - 1].items = Append(@, nd)]
